@@ -144,6 +144,23 @@ def _patch_formatter(mod):
                 return orig(self, *a, **kw)
             return wrapper
         setattr(cls, name, make(orig, name))
+    # test-level claims: used by the oracles only to delimit episodes
+    for name in ('start_test', 'stop_test'):
+        orig = cls.__dict__.get(name)
+        if orig is None:
+            continue
+
+        def make2(orig, name):
+            @functools.wraps(orig)
+            def wrapper(self, test, *a, **kw):
+                try:
+                    tid = test.id()
+                except Exception:
+                    tid = None
+                emit('claim.' + name, id=tid)
+                return orig(self, test, *a, **kw)
+            return wrapper
+        setattr(cls, name, make2(orig, name))
 
 
 # ------------------------------------------------- runner: Popen/sleep proxies
